@@ -15,6 +15,66 @@ RULE = ("model: 1-3 callers x 1-3 requests with request-channel capacity 1-2 (fu
         "YieldFromIO. non-trivial = run with >= 2 callers or > 5 requests; distinct = distinct recorded runs (seeded)")
 
 
+def hook_binding(ctx, tla, quick):
+    """Hook-level traces of real coroutines validated against Cor.tla's own actions (advisory: MODEL-DRIFT); corrupted copies must be rejected."""
+    from concurrent.futures import ThreadPoolExecutor
+    pre = os.path.join(ctx.scratch, "c14.hook")
+    p = ctx.drv(["c14", "hooktrace", "--rounds", 8 if quick else 120, "--out", pre], timeout=1500)
+    info = json.loads(p.stdout.strip().splitlines()[-1])
+
+    def val(f, timeout=600):
+        r = ctx.tlc("Trace_CorHook", workers=1, timeout=timeout, cwd=tla, dfs=True, env_extra={"VERIF_TRACE": f}, heap="4g")
+        n = len(core.read_ndjson(f))
+        if "NotDone" in (r.inv_violated or []):          # the first behaviour that consumes the whole trace ends the search
+            return n, n
+        h = r.printed("HWM")
+        if not h:
+            core.log(r.text[-2000:])
+            raise core.Inconclusive("Trace_CorHook did not finish on %s" % f)
+        a, b = [int(x) for x in h[-1].split(",")]
+        return a, b
+    with ThreadPoolExecutor(max_workers=4) as ex:
+        res = list(ex.map(lambda f: (f,) + val(f), info["files"]))
+    events = 0
+    strip = lambda e: {k: v for k, v in e.items() if k != "nx"}
+    for f, a, b in res:
+        events += a
+        if a != b:
+            lines = core.read_ndjson(f)
+            ctx.drift.append("Cor.tla does not explain the hook-level trace %s at line %d: %s (previous: %s)" % (
+                os.path.basename(f), a + 1, json.dumps(strip(lines[a]))[:200], json.dumps(strip(lines[max(0, a - 1)]))[:160]))
+    good = [f for f, a, b in res if a == b]
+    rejected, muts = 0, []
+    if len(good) >= 3:
+        L = core.read_ndjson(good[2])                                                     # two callers, two requests each
+        L = L[:next((i for i, e in enumerate(L) if i > 0 and e["ev"] == "reset"), len(L))]
+        for pick, change in ((lambda e: e["ev"] == "res" and e["y"] > 100, lambda e: e.update(y=e["y"] + 1)),                    # a caller got another answer
+                             (lambda e: e["ev"] == "refres", lambda e: e.update(i=e["i"] % 2 + 1)),                              # the target saw another request
+                             (lambda e: e["ev"] == "res", lambda e: e.update(i=e["i"] + 1))):                                      # an answer to a request that was not made
+            M = [dict(e) for e in L]
+            ks = [i for i, e in enumerate(M) if pick(e)]
+            if ks:
+                change(M[ks[len(ks) // 2]])
+                muts.append(M)
+        ks = [i for i, e in enumerate(L) if e.get("pt") == "cor.close.locked" and e["thr"] == "T"]
+        fl = [i for i, e in enumerate(L) if e.get("pt") == "cor.close.flagged" and e["thr"] == "T"]
+        if ks and fl and fl[0] < ks[0]:                                                   # the target closed its channels before its effect returned
+            M = [dict(e) for e in L]
+            M[fl[0]], M[ks[0]] = dict(L[ks[0]], nx=L[fl[0]]["nx"]), dict(L[fl[0]], nx=L[ks[0]]["nx"])
+            muts.append(M)
+        for n, M in enumerate(muts):
+            mf = "%s.mut%d.ndjson" % (pre, n)
+            core.write_ndjson(mf, M)
+            a, b = val(mf, timeout=900)
+            rejected += a != b
+        if rejected != len(muts):
+            raise core.Inconclusive("hook-level binding accepted %d of %d corrupted traces (vacuous)" % (len(muts) - rejected, len(muts)))
+    ctx.notes.append("hook-level binding: %d hook / inv / res lines of real coroutines (%d rounds, 7 configurations: 1-3 callers, 1-3 requests each, the target serving all, "
+                     "some or none of them) %s by Cor.tla's own actions (Trace_CorHook); %d corrupted copies (wrong answer, wrong request seen by the target, answer to a request "
+                     "not made, channels closed before completion) rejected" % (events, info["rounds"], "accepted" if not any(a != b for _, a, b in res) else "NOT all accepted", rejected))
+    ctx.cov["evaluations"] += events
+
+
 def run(ctx, replay=None):
     tla = ctx.stage_specs()
     quick = ctx.tier == "quick"
@@ -61,6 +121,12 @@ def run(ctx, replay=None):
                    ">5" if e["ncallers"] and e["issued"] // max(1, e["ncallers"]) > 5 else "<=5", e.get("shape"), " StartWithVal" if e["startVal"] else ""),
                    "recorded run: %s: %s" % (json.dumps(e)[:1500], why), {"component": "c14", "run": e})
     ctx.sample(lines[2])
+    try:
+        hook_binding(ctx, tla, quick)
+    except core.Inconclusive as ex:
+        if not ctx.violations:
+            raise
+        ctx.notes.append("hook-level binding not completed on this tree (%s)" % ex)
     ctx.assumptions += [
         "effects are harness code; x values are unique (caller*1000+j), so a misrouted or duplicated value is visible",
         "the target serves exactly as many YieldRefs as there are requests (the statement's premise); completion races are C15",
